@@ -112,12 +112,12 @@ def _(u):
     depot_tour_reward_unit(u, F, "PDPEnv._get_reward", "PDPEnv", static=True)
 
 
-@unit("pdp.rowlocal.reward", file=F, func="PDPEnv._get_reward", props=("C04",))
+@unit("pdp.rowlocal.reward", file=F, func="PDPEnv._get_reward", props=("C04", "C14"))
 def _(u):
     depot_tour_reward_rowlocal(u, F, "PDPEnv._get_reward", "PDPEnv", static=True)
 
 
-@unit("pdp.rowlocal.step", file=F, func="PDPEnv._step", props=("C04",))
+@unit("pdp.rowlocal.step", file=F, func="PDPEnv._step", props=("C04", "C14"))
 def _(u):
     H = u.dim("H")
     N = 2 * H
